@@ -32,6 +32,7 @@ import AutosarVerif.Lemmas.StepX
 import AutosarVerif.Lemmas.MoveOp
 import AutosarVerif.Lemmas.StepY
 import AutosarVerif.Lemmas.MoveFull
+import AutosarVerif.Lemmas.Dup
 
 namespace AV.C11
 open AV.W
@@ -130,5 +131,13 @@ theorem C11_refusals_in_reachable_states_incl_move_and_copy : type_of% @AV.W.rea
 /-- `move_element_here` inside one model OR between models (`opMoveAny`, what the driver runs): a refusal leaves the world unchanged, unconditionally (since the repairs e563568 and c4f0cbe)
 `theorem opMoveAny_err_frame (w : World) (p x : Nat) (pos? : Option Nat) (h : (opMoveAny S V w p x pos?).2 = .err) : (opMoveAny S V w p x pos?).1 = w` -/
 theorem C11_move_any : type_of% @AV.W.opMoveAny_err_frame := @AV.W.opMoveAny_err_frame
+
+
+/-! ### added at the end of the third session (proof pack DU): restated by name
+(`type_of%` keeps the statement identical to the lemma; the signature is quoted in the comment) -/
+
+/-- `duplicate()`: any answer other than ok returns the world unchanged, unconditionally
+`theorem opDup_err_frame (w : World) (k : Nat) (h : ∀ p, (opDup S V rootAttrs w k).2 ≠ .ok p) : (opDup S V rootAttrs w k).1 = w` -/
+theorem C11_duplicate : type_of% @AV.W.opDup_err_frame := @AV.W.opDup_err_frame
 
 end AV.C11
